@@ -566,6 +566,17 @@ func genC20(g *Gen) {
 			}
 		}
 	}
+	// an array made empty (or short) again by SetLength, then copied: original and copy grow on their own afterwards
+	for _, how := range []string{"Clone", "Assign", "SetAsObject", "NewVariant"} {
+		for _, n := range []int{0, 1} {
+			for _, sz := range []int{1, 2, 3, 5} {
+				g.Run("shortened by SetLength, then copied, both growing", []Ev{{"op": "new"}, {"op": "listset", "list": "L1", "elems": []any{"e1", "e2", "e3", "e4", "e5"}[:sz]},
+					{"op": "fromlist", "v": 1, "list": "L1", "how": "SetAsArray"}, {"op": "setlength", "v": 1, "n": n}, {"op": "copy", "w": 2, "v": 1, "how": how},
+					{"op": "setbyindex", "v": 1, "i": n, "e": "e3"}, {"op": "setbyindex", "v": 2, "i": n, "e": "e4"}, {"op": "setbyindex", "v": 1, "i": n + 1, "e": "e5"},
+					{"op": "setlength", "v": 2, "n": n + 3}, {"op": "mutelem", "v": 2, "i": n + 2}, {"op": "setlength", "v": 1, "n": n + 3}})
+			}
+		}
+	}
 	// the variant's own list handed back to it, then changed by the caller
 	for _, how := range []string{"SetAsObject", "SetAsArray"} {
 		for _, fh := range []string{"SetAsArray", "NewVariant"} {
